@@ -287,3 +287,11 @@ def replay(case, seed):
     r = core.Result()
     run_case(r, seed, case['scheme'], case['label'], case['cfg'], case['profile'], case['kwlen'], case['relation'])
     return r['violations']
+
+# a subset of the units is executed again in other environments (child interpreters): see core.run_variants
+ENV_VARIANTS = [{'name': 'python-O', 'flags': ['-O']}]
+
+def variant_units(tier, seed, name):
+    pred = lambda uid, p: 'ctor' in p
+    return [u for u in units('quick', seed) if pred(u[0], u[1])]
+
